@@ -49,13 +49,14 @@ pub const POOL_KINDS: [&str; 9] = [
 pub fn case_strategy(max_ops: usize) -> impl Strategy<Value = Case> {
     let ty = prop_oneof![
         12 => 0u8..17,          // up to 1000 bytes
+        3 => 21u8..24,          // same-size-other-alignment twins
         3 => 17u8..20,          // 4096 .. 40000 bytes, align up to 4096
         1 => Just(20u8),        // > 1 MiB
     ];
     (
         0u8..9,
         ty,
-        prop::collection::vec(0u8..19, 2..6),
+        prop::collection::vec(prop_oneof![3 => 0u8..19, 2 => 21u8..24, 1 => Just(12u8), 1 => Just(15u8), 1 => Just(8u8)], 2..6),
         prop_oneof![2 => Just(0u8), 3 => Just(1u8), 3 => Just(2u8), 2 => Just(3u8), 2 => Just(4u8), 1 => Just(8u8), 1 => Just(32u8)],
         prop::bool::weighted(0.3),
         0u8..4,
